@@ -809,3 +809,32 @@ Definition trun (fresh : bool) (q0 : question) (todo : list tq) (cache : list (c
 (* every cache entry answers the question of its key *)
 Definition tcache_ok (cache : list (ckey * question)) : bool :=
   forallb (fun e => ckey_eqb (key_of (snd e)) (fst e)) cache.
+
+(* ------------------------------------------------------------------------------------------------ *)
+(* Part R: ip_version_prefer - the preference wait as a rendezvous between the two resolutions of a name *)
+(* ------------------------------------------------------------------------------------------------ *)
+(* N = the resolution of the non-preferred type, P = the resolution of the preferred type, both for one
+   name and each with its own upstream response (already past the question check).  applyPreferenceWait
+   parks N (bounded by the Resolution Delay) until P notifies; it only changes WHEN N releases its
+   response, never WHICH message: [own_only] (gen/C09_Pref.v) says that every return of applyPreferenceWait
+   returns the response it was given.  The variant returns the preferred response to N when that arrived
+   in time and has answers. *)
+Inductive pref_order :=
+| NFirstInTime      (* N's answer first; P's arrives within the delay and releases the wait *)
+| NFirstTimeout     (* N's answer first; the wait times out *)
+| PFirst.           (* P's answer first: nothing to wait for *)
+
+Definition pref_release (own_only : bool) (o : pref_order) (mN mP : message) : message :=
+  if own_only then mN
+  else match o with
+       | NFirstInTime => match m_ans mP with [] => mN | _ => mP end
+       | _ => mN
+       end.
+
+(* what dialSend then does with the released message for the leader c: stamp the ID, cache under the
+   request's key when cacheable, hand it to the waiters (who are served from the cache if it was stored) *)
+Definition pref_reply (c : client_query) (released : message) : message :=
+  match cacheable released with
+  | Some e => hit_reply true c e
+  | None => with_id released (cq_id c)
+  end.
